@@ -385,7 +385,8 @@ func main() {
 	if globalFlags.cpuProfile != "" {
 		f, err := os.Create(globalFlags.cpuProfile)
 		if err != nil {
-			panic(err)
+			fmt.Printf("Could not create CPU profile: %s\n", err)
+			os.Exit(par2cmdline.ExitFileIOError)
 		}
 		defer func() {
 			err := f.Close()
@@ -396,7 +397,8 @@ func main() {
 
 		err = pprof.StartCPUProfile(f)
 		if err != nil {
-			panic(err)
+			fmt.Printf("Could not start CPU profile: %s\n", err)
+			os.Exit(par2cmdline.ExitFileIOError)
 		}
 
 		c := make(chan os.Signal, 1)
